@@ -24,7 +24,9 @@ ENTRY = {
                   "carrying an expiry || Await, PubKeyByAttestation||Store) released together by a start barrier on the real MemDB; "
                   "it is accepted only if some sequential order of the atomic model operations reproduces every call's result, "
                   "every answer and the final state (linearisability), and the unique-answer / conflict / prompt-await monitors "
-                  "are evaluated on it after all goroutines returned; theorem concurrent_batch_safe states that every such order "
+                  "are evaluated on it after all goroutines returned; for every duty type the stream also fires a duty's deadline "
+                  "while Store is inside deadliner.Add for it and issues a second Store at that instant (addrace): afterwards "
+                  "nothing of the expired duty may be stored or served; theorem concurrent_batch_safe states that every such order "
                   "satisfies the history-level statements.",
     "level_note": "Trusted: Lean kernel, the Go correspondence harness and line driver. Concurrency: the theorems are about "
                   "sequences of atomic operations; that each public method of MemDB is atomic (db.mu held from its first to its "
